@@ -122,6 +122,7 @@ inductive Op where
   | clone (r r2 : Nat)
   | drop (r : Nat)
   | parse (t : Bytes)
+  | nameck (n : Bytes)
   | note
   | bad (line : String)
 
@@ -159,6 +160,7 @@ def parseOp (line : String) : Op :=
   | ["clone", r, r2] => match r.toNat?, r2.toNat? with | some r, some r2 => .clone r r2 | _, _ => bad
   | ["drop", r] => match r.toNat? with | some r => .drop r | none => bad
   | ["parse", t] => match unhex t with | some t => .parse t | none => bad
+  | ["nameck", n] => match unhex n with | some n => .nameck n | none => bad
   | _ => bad
 
 def envOf (table : List (Bytes × List Bytes)) : Env :=
@@ -171,21 +173,25 @@ def envOf (table : List (Bytes × List Bytes)) : Env :=
 /-! structural dump of the model tree in the format of the hook's `tree_dump`: one entry per node in stored order,
 `depth,kind,label,constraint,has-data` (skeleton) and the two shortcut flags plus the dirty mark (hidden state) -/
 mutual
-def nodeDump (depth : Nat) (kind : String) (lab cons : Bytes) : Node → List (String × String)
+def nodeDump (depth : Nat) (kind : String) (lab cons : Bytes) : Node → List (String × String × Option String)
   | .mk x s dc d wc w ec e ds ws dirty =>
     (s!"{depth},{kind},{hex lab},{hex cons},{if x.isSome then "D" else "."}",
-      s!"{if ds then 1 else 0}{if ws then 1 else 0}{if dirty then 1 else 0}") ::
+      s!"{if ds then 1 else 0}{if ws then 1 else 0}{if dirty then 1 else 0}",
+      x.map (fun i => s!"{i.depth}:{i.length}:{hex i.template}:{match i.expanded with | some e => hex e | none => "~"}")) ::
     (kidsDump (depth + 1) "s" s ++ kidsDump (depth + 1) "dc" dc ++ kidsDump (depth + 1) "d" d ++
      kidsDump (depth + 1) "wc" wc ++ kidsDump (depth + 1) "w" w ++ kidsDump (depth + 1) "ec" ec ++ kidsDump (depth + 1) "e" e)
-def kidsDump (depth : Nat) (kind : String) : Kids → List (String × String)
+def kidsDump (depth : Nat) (kind : String) : Kids → List (String × String × Option String)
   | .nil => []
   | .cons l n r =>
     nodeDump depth kind (if kind == "s" then l.pre else l.name) (if kind == "dc" || kind == "wc" || kind == "ec" then l.cons else []) n
       ++ kidsDump depth kind r
 end
 
+/-- `dump <skeleton> F=<hidden state> I=<stored info>`: the stored info lists, for every node that holds data in stored
+order, `depth:length:template:expanded` (hook `data_dump`) -/
 def showDump (root : Node) : String :=
   let ls := nodeDump 0 "root" [] [] root
-  "dump " ++ ";".intercalate (ls.map (·.1)) ++ " F=" ++ ";".intercalate (ls.map (·.2))
+  "dump " ++ ";".intercalate (ls.map (·.1)) ++ " F=" ++ ";".intercalate (ls.map (·.2.1)) ++
+    " I=" ++ ";".intercalate (ls.filterMap (·.2.2))
 
 end Driver
